@@ -96,16 +96,9 @@ func checkC04(c *FmtCase) Result {
 		return res
 	}
 	g, w := strip(got.out), esc(want.out)
-	if bytes.Contains(want.out, []byte("(PANIC=")) && hasWidthOrPrec(c) {
-		// Toolchain drift: since Go 1.21 fmt's clearflags also zeroes the width
-		// and precision *numbers*, and catchPanic restores only the flags, so
-		// what is printed after a caught panic under the same directive loses
-		// its padding in the newer fmt but not in the forked one. Neither is
-		// "the" fmt behaviour; the equality is not judged for this combination.
-		res.Classes = append(res.Classes, "drift:width-after-caught-panic")
-		res.NonTrivial = false
-		return res
-	}
+	// (Until /repo 8f22474 the fork kept the width and precision numbers after a
+	// caught method panic where fmt since Go 1.21 loses them; the fork's
+	// clearflags now resets them too and the outputs are compared.)
 	if !bytes.Equal(g, w) {
 		res.Err = fmt.Errorf("%s(%s, ...): redact prints %s (stripped %s), fmt prints %s (escaped %s)", c.Route, qs(format), q(got.out), q(g), q(want.out), q(w))
 		return res
